@@ -324,6 +324,7 @@ static inline int yk_preempt(int kind, const void* p)
     return nondet_uint8() & 1;
 }
 void yk_thread(uint32_t i, void* fn);
+void yk_allow_ctx(uint32_t c, uint32_t mask);
 void yk_run_threads(uint32_t ctx);
 uint32_t yk_thread_done(uint32_t i);
 uint32_t yk_ctx_of_finish(uint32_t i);
